@@ -465,8 +465,9 @@ func runC17(r *Run) {
 		for i := 0; i < ns; i++ {
 			t := gs.gen(1 + r.Rng.Intn(2))
 			t2 := t
+			t = fixKeys(t)
 			if r.Rng.Intn(3) != 0 {
-				t2 = gs.mutate(t)
+				t2 = fixKeys(gs.mutate(t))
 			}
 			sh := t.Go() // ONE node used in several places
 			var gx, gy *types.Type
